@@ -199,6 +199,11 @@ FULL_FAULTS = {
     "unknown-reference-keyword": ("S2", "conddim-slicer"),
     "wrongly-typed-reference": ("S2", "conddim-slicer"),
     "too-few-intervals": ("S2", "conddim-slicer"),
+    # exactly one interval fewer than demanded; with one interval dropped for having too few points
+    "too-few-intervals/one-short": ("S2", "conddim-slicer"),
+    "fitdesc-empty-list": ("S2", "global"),
+    "fitdesc-empty-tuple": ("S2", "global"),
+    "fitdesc-one-entry-short": ("S2", "global"),
 }
 
 
@@ -329,6 +334,8 @@ def generate(prop, seed, tier):
             continue  # different contour stages: only one contour is built per pipeline
         if (a.startswith("3d-model-into") and b == "non-model-into-iform") or (b.startswith("3d-model-into") and a == "non-model-into-iform"):
             continue
+        if {a, b} == {"fitdesc-one-entry-short", "fitdesc-wrong-length"}:
+            continue  # one entry removed, one appended: the right length again
         if a.startswith("hdc") and b.startswith("hdc") and a != b and {a, b} & {"hdc-limits-wrong-length"} and {a, b} & {"hdc-limit-tuple-wrong-length", "hdc-limit-scalar-entry"}:
             continue
         c.update({"engine": NAME, "property": prop, "seed": seed, "mode": "pair", "faults": [{"cls": a, "pos": pa}, {"cls": b, "pos": pb}]})
@@ -551,6 +558,21 @@ def run_pipeline(pipe, faults, run=None):
                     # NumberOfIntervalsSlicer lowers min_n_intervals to n_intervals;
                     # ask for more points per interval than any interval holds instead
                     spec["min_n_points"] = 10**6
+            if has("too-few-intervals/one-short", i):
+                # an interval slicer that keeps k intervals (after dropping one that holds fewer than
+                # min_n_points observations) is asked for k + 1
+                if spec["kind"] == "number":
+                    spec["kind"] = "width"  # NumberOfIntervalsSlicer lowers min_n_intervals to n_intervals
+                if spec["kind"] == "points":
+                    spec["n_points"] = 140  # 900 = 6 * 140 + 60
+                    spec["min_n_points"] = 80
+                else:
+                    spec["min_n_points"] = 40
+                probe = dict(spec)
+                probe["min_n_intervals"] = 1
+                col = _data_for(pipe)[:, i]
+                k = len(_make_slicer(probe).slice_(col)[0])
+                spec["min_n_intervals"] = k + 1
             desc["intervals"] = _make_slicer(spec)
             if cond_on is not None:
                 desc["conditional_on"] = cond_on
@@ -618,6 +640,12 @@ def run_pipeline(pipe, faults, run=None):
             fit_desc[i] = {"method": "Lsq", "weights": 3.5}
         for i in anyf("unknown-fit-method/empty-string"):
             fit_desc[i] = {"method": ""}
+        if has("fitdesc-one-entry-short"):
+            fit_desc = fit_desc[:-1]
+        if has("fitdesc-empty-list"):
+            fit_desc = []
+        if has("fitdesc-empty-tuple"):
+            fit_desc = ()
         model.fit(data, fit_desc)
         stage = 2
         # ---------------- S3: evaluation ----------------------------------------------------------------
